@@ -198,4 +198,14 @@ static void gen(Emitter &em, const Options &opt) {
     }
 }
 
-int main(int argc, char **argv) { return run_main(argc, argv, gen, exec_case); }
+// The runner calls a case a hang after `case_timeout` seconds of wall-clock silence.  On a machine shared with
+// other checks (load several times the core count) a microsecond case can be descheduled for longer than the
+// 4 s default; a generous default keeps that from being reported, while a call that really never returns is
+// still caught (an explicit --timeout on the command line wins).
+int main(int argc, char **argv) {
+    std::vector<char *> args; args.push_back(argv[0]);
+    static char opt[] = "--timeout", val[] = "30";
+    args.push_back(opt); args.push_back(val);
+    for (int i = 1; i < argc; ++i) args.push_back(argv[i]);
+    return run_main((int)args.size(), args.data(), gen, exec_case);
+}
